@@ -1,7 +1,9 @@
 (* Executable entry points for the C01 correspondence shards:
-   DltMessageIterator::new(start, Cursor::new(bytes)) drained, vs Dlt/Iter.v. *)
+   DltMessageIterator::new(start, Cursor::new(bytes)) drained, vs Dlt/Iter.v.
+   The Cursor run is evaluated as [run_fast] (Dlt/IterFast.v: jumps over marker-free stretches instead of re-measuring
+   the input at every byte), which equals [run_iter] on every input (Properties/C01.v C01_fast_iter_equal). *)
 From Coq Require Import List NArith Bool.
-From AdltV Require Import Base.Obs Base.Res Base.MachInt Dlt.Frame Dlt.Iter.
+From AdltV Require Import Base.Obs Base.Res Base.MachInt Dlt.Frame Dlt.Iter Dlt.IterFast Dlt.Probe.
 Import ListNotations.
 Open Scope N_scope.
 
@@ -14,7 +16,8 @@ Open Scope N_scope.
 Inductive wiring : Type :=
 | WCursor
 | WLowMark (cap low : N) (look4 : bool)
-| WSliced (cap low : N) (look4 : bool) (ctor : N) (sched : list (N * N)).
+| WSliced (cap low : N) (look4 : bool) (ctor : N) (sched : list (N * N))
+| WProbe (read_size first_read : N).
 (* WSliced cap low look4 ctor sched
                       the same wiring as WLowMark, but the inner source satisfies its reads in slices: [sched] is the
                       cyclic run-length list (count, size) of the read sizes it chooses (each clipped to [1, room] and to
@@ -28,6 +31,15 @@ Inductive wiring : Type :=
                       schedule, low >= 65551), C04_iter_chunk_independent (any stream, low >= 65555) and C04_lookahead
                       (a stream shorter than the low mark is always shown completely).  The harness generates
                       out-of-domain streams longer than the low mark only with look4. *)
+
+(* WProbe read_size first_read
+                      the probe of an input file: adlt::utils::get_dlt_infos_from_read(ext, &mut src, .., read_size, ..)
+                      (resp. get_dlt_infos_from_file on a regular file) with a DLT extension, [first_read] = the number
+                      of bytes the source delivers at most in one read() (regular file / Cursor: all).  Observed:
+                      DltFileInfos.first_msg, the set DltFileInfos.ecus_seen and the bytes taken from the source.  The
+                      start index of the case is not used (the probe numbers from 0).  Model: Dlt/Probe.v [probe] (the
+                      iterator over a std BufReader of capacity read_size over the bytes read), evaluated as [probe_exec]
+                      (Properties/C01.v C01_probe_exec_equal). *)
 
 (* input: wiring, start index, byte stream as segments (count, block) = block repeated count times *)
 Definition case_C01 := (wiring * N * list (N * list N))%type.
@@ -43,6 +55,7 @@ Definition wiring_ok (w : wiring) : bool :=
   | WCursor => true
   | WLowMark cap low look4 | WSliced cap low look4 _ _ =>
       (MAX_STORAGE_MSG + (if look4 then 4 else 0) <=? low) && (low + 4096 <=? cap)
+  | WProbe _ _ => true
   end.
 
 Fixpoint rep_block (k : nat) (b : bytes) : bytes := match k with O => [] | S k' => b ++ rep_block k' b end.
@@ -83,17 +96,36 @@ Definition o_run_items (r : res (list msg * ist * bytes)) : otree :=
   | OutOfFuel => T [L 2]
   end.
 
+(* a HashSet<DltChar4> is observed as the strictly increasing list of its elements' big-endian values *)
+Definition c4n (c : char4) : N := match c with (a, b, c', d) => be32 a b c' d end.
+Fixpoint set_ins (x : N) (l : list N) : list N :=
+  match l with
+  | [] => [x]
+  | y :: t => if x <? y then x :: l else if x =? y then l else y :: set_ins x t
+  end.
+Definition set_of (l : list N) : list N := fold_right set_ins [] l.
+
+Definition o_probe (consumed : N) (r : res (option msg * list char4)) : otree :=
+  match r with
+  | Ok (first, ecus) => T [L 4; oopt o_msg first; T (map L (set_of (map c4n ecus))); L consumed]
+  | Panic _ => T [L 1]
+  | OutOfFuel => T [L 2]
+  end.
+
 Definition run_C01 (c : case_C01) : otree :=
   let '(w, start, segs) := c in
   match w with
-  | WCursor => o_run (run_iter start (bytes_of_segs segs))
+  | WCursor => o_run (run_fast start (bytes_of_segs segs))
   | WLowMark cap low look4 =>
       (* the crate's constants must meet the bound; then the buffered run is the whole-buffer run *)
-      if wiring_ok w then o_run (run_iter start (bytes_of_segs segs))
+      if wiring_ok w then o_run (run_fast start (bytes_of_segs segs))
       else T [L 9; L MAX_STORAGE_MSG; L low; L cap]
   | WSliced cap low look4 ctor _ =>
       (* sliced reads: the same answer for every schedule (see above) *)
-      if wiring_ok w then (if 2 <=? ctor then o_run_items else o_run) (run_iter start (bytes_of_segs segs))
+      if wiring_ok w then (if 2 <=? ctor then o_run_items else o_run) (run_fast start (bytes_of_segs segs))
       else T [L 9; L MAX_STORAGE_MSG; L low; L cap]
+  | WProbe read_size first_read =>
+      let data := bytes_of_segs segs in
+      o_probe (blen (probe_window read_size first_read data)) (probe_exec read_size first_read data)
   end.
 Definition agree_C01 : case_C01 -> otree -> bool := agree_det run_C01.
